@@ -312,7 +312,7 @@ def job_oil(job):
         job.validate("density_Standing", evalf(pr.value, env, ufs), float(ro.density_Standing(*[env[k] for k in ("T", "p", "api", "gg", "rsi")])), inputs=env)
 
 
-def replay_oil_array(model):
+def replay_oil_array(model, dtype="f8"):
     """density_Standing on a pressure array listed from high to low, element by element against the library's own scalar
     R_s and B_o at the same pressure."""
     import numpy as np
@@ -325,18 +325,25 @@ def replay_oil_array(model):
         cands.append([1.3 * pb, 0.6 * pb])          # straddling the real bubble point
     problems = []
     for arr in cands:
+        if dtype != "f8":
+            arr = [float(round(x)) for x in arr]      # whole psi in an integer-typed array (np.arange, a CSV column of whole numbers)
+        np_arr = np.array(arr, dtype={"f8": "float64", "i8": "int64"}[dtype])
         with np.errstate(all="ignore"):
-            rho = np.asarray(oil.density_Standing(m["T"], np.array(arr), m["api"], m["gg"], m["rsi"]), float)
+            rho = np.asarray(oil.density_Standing(m["T"], np_arr, m["api"], m["gg"], m["rsi"]), float)
+            bo_arr = np.asarray(oil.b_o_Standing(m["T"], np_arr, m["api"], m["gg"], m["rsi"]), float)
         for j, p in enumerate(arr):
             a = (m["T"], float(p), m["api"], m["gg"], m["rsi"])
             want = 62.37 * 141.5 / (131.5 + m["api"]) + 0.0136 * m["gg"] * float(oil.solution_gor_Standing(*a))
             got = float(rho[j]) * float(oil.b_o_Standing(*a))
             if not abs(got - want) <= 1e-9 * abs(want):
-                problems.append(f"pressures {arr}: element {j} (p={p!r}): density*B_o = {got!r} vs stock-tank oil + dissolved gas {want!r}")
+                problems.append(f"pressures {np_arr!r}: element {j} (p={p!r}): density*B_o = {got!r} vs stock-tank oil + dissolved gas {want!r}")
+            got2 = float(oil.density_Standing(*a)) * float(bo_arr[j])
+            if not abs(got2 - want) <= 1e-9 * abs(want):
+                problems.append(f"pressures {np_arr!r}: element {j} (p={p!r}): density * (B_o from the array call) = {got2!r} vs stock-tank oil + dissolved gas {want!r}")
     return bool(problems), {"what": "; ".join(problems[:2]) or "array density consistent with scalar R_s, B_o", "inputs": m}
 
 
-def job_oil_array(job):
+def job_oil_array(job, dtype="f8"):
     """The oil identity for the values a caller gets back from an array call: density_Standing on two pressures listed
     from high to low (a depletion sequence), each element against the library's own scalar R_s and B_o at that pressure."""
     import bluebonnet.fluids.oil as _ro
@@ -350,28 +357,35 @@ def job_oil_array(job):
     T_, api, gg, rsi = vs["T"], vs["api"], vs["gg"], vs["rsi"]
     ps = [vs["p2"], vs["p1"]]
 
+    dtag = "" if dtype == "f8" else ", int64 pressure array"
+    rpo = (replay_oil_array, {"dtype": dtype})
+
     def run():
-        rho = oil.density_Standing(T_, SymArray(list(ps), "f8"), api, gg, rsi)
-        sc = [(oil.solution_gor_Standing(T_, p, api, gg, rsi), oil.b_o_Standing(T_, p, api, gg, rsi)) for p in ps]
+        rho = oil.density_Standing(T_, SymArray(list(ps), dtype), api, gg, rsi)
+        bo_arr = oil.b_o_Standing(T_, SymArray(list(ps), dtype), api, gg, rsi)
+        sc = [(oil.solution_gor_Standing(T_, p, api, gg, rsi), oil.b_o_Standing(T_, p, api, gg, rsi), oil.density_Standing(T_, p, api, gg, rsi), bo_arr.d[j])
+              for j, p in enumerate(ps)]
         return rho, sc
     res = paths(job, run, dom, max_paths=64)
     ok = 0
     for k, pr in enumerate(res):
         if pr.exc is not None:
-            job.prove(f"oil-array/raises {type(pr.exc).__name__}[path{k}]", pr.pc, bound="oil box", replay=replay_oil_array, note=repr(pr.exc)[:80])
+            job.prove(f"oil-array{dtag}/raises {type(pr.exc).__name__}[path{k}]", pr.pc, bound="oil box", replay=rpo, note=repr(pr.exc)[:80])
             continue
         rho, sc = pr.value
         if not isinstance(rho, SymArray) or len(rho.d) != 2 or any(isinstance(x, Uninit) for x in rho.d):
-            job.prove(f"oil-array/result is a full length-2 array[path{k}]", pr.pc, bound="oil box", replay=replay_oil_array)
+            job.prove(f"oil-array{dtag}/result is a full length-2 array[path{k}]", pr.pc, bound="oil box", replay=rpo)
             continue
         ok += 1
         bad = []
         for j in range(2):
             want = K("62.37") * K("141.5") / (K("131.5") + api) + K("0.0136") * gg * sc[j][0]
             bad.append(not_close(rho.d[j] * sc[j][1], want))
-        job.prove(f"oil-array/density*Bo==stock-tank oil+dissolved gas, pressures listed high to low[path{k}]", pr.pc + [T.b_or(*bad)],
-                  bound="oil box, 2 pressures", replay=replay_oil_array)
-        job.prove(f"oil-array/reach[path{k}]", pr.pc, expect="info")
+            if not isinstance(sc[j][3], Uninit):
+                bad.append(not_close(sc[j][2] * sc[j][3], want))      # scalar density x the FVF a caller gets from the array call
+        job.prove(f"oil-array{dtag}/density*Bo==stock-tank oil+dissolved gas, pressures listed high to low[path{k}]", pr.pc + [T.b_or(*bad)],
+                  bound="oil box, 2 pressures", replay=rpo)
+        job.prove(f"oil-array{dtag}/reach[path{k}]", pr.pc, expect="info")
     if not ok:
         job.errors.append("oil-array: no path returns an array")
 
@@ -399,4 +413,4 @@ from .c19 import job_facade_gas, replay_facade  # noqa: E402,F401  (replay_facad
 def jobs(tier):
     return [("gas-density", job_gas_density), ("gas-compressibility", job_gas_compressibility),
             ("gas-viscosity", job_viscosity), ("oil-density", job_oil), ("water-density", job_water),
-            ("gas-through-the-facade", job_facade_gas), ("oil-density-array", job_oil_array)]
+            ("gas-through-the-facade", job_facade_gas), ("oil-density-array", job_oil_array), ("oil-density-array-int64", lambda j: job_oil_array(j, "i8"))]
